@@ -76,6 +76,55 @@ theorem C15_negative_size (v : Variant) (keys : List String) (tok : Tok) (size :
     listPage v keys tok size = .err .invalidArgument := by
   cases tok <;> simp [listPage, h]
 
+/-- **C15_read_mask.** A read mask does not disturb paging (after 2829c35): with ANY read mask — whether or
+not it shows the key field — every call returns the same next token, total and number of items as
+without one and never panics; so from the empty token the chain reaches the empty token within
+`|keys|+1` pages, the pages hold `|keys|` items in all, respect the size bound, and show the listing itself
+when the key is visible. -/
+theorem C15_read_mask (v : Variant) (keys : List String) (hs : Sorted keys) (hne : "" ∉ keys)
+    (size : Nat → Int) (hsz : ∀ i, 0 ≤ size i) (keyVisible : Bool) :
+    (∀ fuel i tok, chainMasked v keys size keyVisible fuel i tok =
+      (chain v keys size fuel i tok).map (·.map (Page.display keyVisible))) ∧
+    (∀ tok sz, listPageMasked v keys tok sz keyVisible ≠ .panic) ∧
+    ∃ pages, chainMasked v keys size keyVisible (keys.length + 1) 0 .empty = some pages ∧
+      pages.length ≤ keys.length + 1 ∧
+      ((pages.map (·.items)).flatten).length = keys.length ∧
+      (keyVisible = true → (pages.map (·.items)).flatten = keys) ∧
+      ∀ j p, pages[j]? = some p → (p.items.length : Int) ≤ allowed (size j) ∧ p.total = keys.length := by
+  refine ⟨chainMasked_eq v keys size keyVisible, ?_, ?_⟩
+  · intro tok sz
+    rw [listPageMasked_eq]
+    have := C15_any_token_no_panic v keys tok sz
+    cases h : listPage v keys tok sz <;> simp_all
+  · obtain ⟨pages, h1, h2, h3, h4⟩ := C15_enumerates v keys hs hne size hsz
+    refine ⟨pages.map (Page.display keyVisible), by rw [chainMasked_eq, h1]; rfl, by simpa using h3, ?_, ?_, ?_⟩
+    · have hl : ∀ (ps : List Page), ((ps.map (Page.display keyVisible)).map (·.items)).flatten.length
+          = ((ps.map (·.items)).flatten).length := by
+        intro ps
+        induction ps with
+        | nil => rfl
+        | cons q qs ih =>
+          simp only [List.map_cons, List.flatten_cons, List.length_append, ih]
+          congr 1
+          unfold Page.display
+          cases keyVisible <;> simp
+      rw [hl, h2]
+    · intro hv
+      subst hv
+      have hid : ∀ ps : List Page, ps.map (Page.display true) = ps := by
+        intro ps
+        induction ps with
+        | nil => rfl
+        | cons q qs ih => simp [Page.display] at ih ⊢; exact ih
+      rw [hid, h2]
+    · intro j p hp
+      simp only [List.getElem?_map, Option.map_eq_some_iff] at hp
+      obtain ⟨q, hq, rfl⟩ := hp
+      obtain ⟨a, b⟩ := h4 j q hq
+      refine ⟨?_, b⟩
+      unfold Page.display
+      cases keyVisible <;> simpa using a
+
 /-! ## waste: ListWasteRecords (index tokens) -/
 
 /-- **C15_waste (enumerates).** Over `n` records the chain from the empty token reaches the empty token
@@ -154,6 +203,13 @@ the harness monitors that no listed key is empty). -/
 example : listPage .gt ["", "a"] .empty 1 = .ok ⟨[""], some "", 2⟩ ∧
     listPage .gt ["", "a"] (.key "") 1 = .ok ⟨[""], some "", 2⟩ ∧
     chain .gt ["", "a"] (fun _ => 1) 10 0 .empty = none := by decide
+
+/-- Before 2829c35 a read mask that hides the key made the first page repeat for ever (the token was
+minted from the masked item: empty key), and a later token returned nothing. -/
+example : listPageMaskedUnfixed .gt ["a", "b"] .empty 1 false = .ok ⟨[""], some "", 2⟩ ∧
+    listPageMaskedUnfixed .gt ["a", "b"] (.key "") 1 false = .ok ⟨[""], some "", 2⟩ ∧
+    listPageMaskedUnfixed .gt ["a", "b"] (.key "a") 1 false = .ok ⟨[], none, 2⟩ ∧
+    listPageMasked .gt ["a", "b"] .empty 1 false = .ok ⟨[""], some "a", 2⟩ := by decide
 
 /-- Before f9325fa a negative page size panicked (index out of range [-2]). -/
 example : listPageUnfixed .gt ["a"] .empty (-1) = .panic := by decide
